@@ -25,6 +25,12 @@ class SecondCallDiffers(Exception):
     pass
 
 
+def _props_of(e):
+    """A second gridding of the same arrays that differs breaks conservation (C04: the amounts) and placement (C05: the
+    cells) alike; any other exception is reported under C05."""
+    return ('C04', 'C05') if isinstance(e, SecondCallDiffers) else ('C05',)
+
+
 def grid_twice(g, lats, lons, *rest, state_variables=(), integrated_variables=()):
     """grid_trajectory is a function of its arguments: the same arrays are gridded
     twice (as a per-species loop over one trajectory does) and the second result
@@ -139,7 +145,7 @@ def run_segment(job):
         try:
             tl, to, _, _, sv, iv = grid_twice(f.g2, lats, lons, state_variables=(np.array([7.0, 9.0]),), integrated_variables=(np.array([VALUE]),))
         except Exception as e:
-            return [('C05', f'raised-{type(e).__name__}', f'segment {s}: grid_trajectory raised {type(e).__name__}: {e}')]
+            return [(pr, f'raised-{type(e).__name__}', f'segment {s}: grid_trajectory raised {type(e).__name__}: {e}') for pr in _props_of(e)]
         n = len(tl)
         if not (len(to) == n and len(sv[0]) == n and len(iv[0]) == n):
             devs.append(('C05', 'misaligned-lengths', f'segment {s}: output lengths lat {n}, lon {len(to)}, state {len(sv[0])}, integrated {len(iv[0])}'))
@@ -187,7 +193,7 @@ def run_chain(job):
         try:
             tl, to, ta, tt, sv, iv = grid_twice(f.g4, lats, lons, alts, times, state_variables=(state, state * 10), integrated_variables=(vals, vals2))
         except Exception as e:
-            return [('C05', f'chain-raised-{type(e).__name__}', f'{npt}-point trajectory {pts}: grid_trajectory raised {type(e).__name__}: {e}')]
+            return [(pr, f'chain-raised-{type(e).__name__}', f'{npt}-point trajectory {pts}: grid_trajectory raised {type(e).__name__}: {e}') for pr in _props_of(e)]
         n = len(tl)
         lens = [len(to), len(ta), len(tt), len(sv[0]), len(sv[1]), len(iv[0]), len(iv[1])]
         if any(x != n for x in lens):
@@ -262,7 +268,7 @@ def run_dateline(case):
         try:
             tl, to, ta, tt, sv, iv = grid_twice(g, lats, lons, alts, times, state_variables=(np.array([7.0, 9.0]),), integrated_variables=(np.array([VALUE]),))
         except Exception as e:
-            return [('C05', f'dateline-raised-{type(e).__name__}', f'antimeridian case {c}: raised {type(e).__name__}: {e}')]
+            return [(pr, f'dateline-raised-{type(e).__name__}', f'antimeridian case {c}: raised {type(e).__name__}: {e}') for pr in _props_of(e)]
         n = len(tl)
         if not (len(to) == n and len(sv[0]) == n and len(iv[0]) == n and len(ta) == n and len(tt) == n):
             return [('C05', 'misaligned-lengths', f'antimeridian case {c}: output lengths differ')]
